@@ -6,9 +6,9 @@ whose anchor is gone is 'stale', not a failure."""
 VARIANTS = []
 
 
-def _v(vid, prop, kind, rule, edits, note=""):
+def _v(vid, prop, kind, rule, edits, note="", base=None):
     VARIANTS.append(
-        {"id": vid, "prop": prop, "kind": kind, "rule": rule, "edits": edits, "note": note}
+        {"id": vid, "prop": prop, "kind": kind, "rule": rule, "edits": edits, "note": note, "base": base}
     )
 
 
@@ -1088,3 +1088,76 @@ rename("c02-r-rename-tracking", "C02", [
     (DISP, "_job_next_available_time", "_job_free_at"), (DISP, "_update_tracking_attributes", "_advance_tracking"),
     (DISP, "_cache", "_memo"), (DISP, "_dispatcher_cache", "_memoised"),
 ])
+
+
+# ------------------------------------------------------------------ on top of re-architected trees
+# Mutations of stored refactor patches that bundle private state in a private
+# dataclass: they are only analysable after scalar replacement of the
+# aggregate (unbundle.py), so they test that pass and the rules behind it.
+# kind "refusal": no verdict is acceptable (exit 0 or 2), a VIOLATION is not.
+GEN = "job_shop_lib/generation/_instance_generator.py"
+JSG = "job_shop_lib/graphs/_job_shop_graph.py"
+ORT = "job_shop_lib/constraint_programming/_ortools_solver.py"
+_v("c02-sroa-advance-skips-job-free", "C02", "mutant", None,
+   [(DISP, "        self.job_next_available_time[job_id] = end_time\n", "")],
+   "YA1 + the bundle's advance() forgets the job's next available time", base="YA1")
+_v("c12-sroa-reset-keeps-progress", "C12", "mutant", None,
+   [(DISP, "        self.schedule.reset()\n        self._progress = _Progress.initial(self.instance)\n", "        self.schedule.reset()\n")],
+   "YA1 + reset() no longer rebuilds the bundled tracking state", base="YA1")
+_v("c05-sroa-advance-no-clear", "C05", "mutant", "R05.a",
+   [(DISP, "        self._progress.advance(scheduled_operation)\n        self._cache = {}", "        self._progress.advance(scheduled_operation)")],
+   "YA1 + the cache clear after the bundled update is dropped", base="YA1")
+_v("c19-sroa-limit-strict", "C19", "mutant", "R19.e",
+   [(GEN, "and self.iterations_done >= self.iteration_limit", "and self.iterations_done > self.iteration_limit")],
+   "YE2 + strict comparison inside the bundle's limit_reached()", base="YE2")
+_v("c16-sroa-id-only-for-operations", "C16", "mutant", None,
+   [(JSG, "        self.nodes.append(node)\n        self.next_node_id += 1\n", "        self.nodes.append(node)\n"),
+    (JSG, "        self.by_job[operation.job_id].append(node)\n", "        self.by_job[operation.job_id].append(node)\n        self.next_node_id += 1\n")],
+   "YD5 + only operation nodes consume a node id", base="YD5")
+_v("c03-sroa-table-not-dropped", "C03", "mutant", None,
+   [(ORT, "        self._variables.operations = {}\n", "")],
+   "YF3 + the variable table survives from one solve to the next", base="YF3")
+_v("c02-sroa-escape-refused", "C02", "refusal", None,
+   [(DISP, "    def reset(self) -> None:\n", "    def _snapshot(self):\n        return self._progress\n\n    def reset(self) -> None:\n")],
+   "YA1 + the bundle escapes through a method: the aggregate is kept and the check may only refuse", base="YA1")
+_v("c12-sroa-escape-refused", "C12", "refusal", None,
+   [(DISP, "    def reset(self) -> None:\n", "    def _snapshot(self):\n        return self._progress\n\n    def reset(self) -> None:\n")],
+   "as above for the reset check", base="YA1")
+
+# ------------------------------------------------------------------ round-5 seeds distilled
+refactor("c03-r-nooverlap-min2", "C03", ORT,
+         "            self.model.AddNoOverlap(intervals)",
+         "            if len(intervals) >= 2:\n                self.model.AddNoOverlap(intervals)",
+         "no-overlap over fewer than two intervals is vacuous: skipping it changes nothing")
+refactor("c03-r-nooverlap-continue", "C03", ORT,
+         "            self.model.AddNoOverlap(intervals)",
+         "            if len(intervals) < 2:\n                continue\n            self.model.AddNoOverlap(intervals)")
+mutant("c03-zero-duration-no-interval", "C03", "R03.b", ORT,
+       "            for (start_var, end_var), duration in operations:\n                interval_var",
+       "            for (start_var, end_var), duration in operations:\n                if duration == 0:\n                    continue\n                interval_var",
+       "round-5 seed C03-w2ZI: zero-length intervals still may not lie strictly inside another interval")
+mutant("c12-bound-method-alias", "C12", "R12.f", HIST,
+       "        self.history: list[ScheduledOperation] = []",
+       "        self.history: list[ScheduledOperation] = []\n        self.update = self.history.append  # type: ignore[method-assign]",
+       "round-5 seed C10-w2ZF: update bound to the first episode's list")
+
+# positive controls of the "mutable default argument" rules (expected count on the tree: 0)
+RULESF = "job_shop_lib/dispatching/rules/_dispatching_rules_functions.py"
+GIFF = "job_shop_lib/visualization/_gantt_chart_video_and_gif_creation.py"
+GGEN = "job_shop_lib/generation/_general_instance_generator.py"
+mutant("c07-mutable-default", "C07", "R07.h", FILT,
+       "def filter_non_idle_machines(\n    dispatcher: Dispatcher, operations: list[Operation]\n) -> list[Operation]:",
+       "def filter_non_idle_machines(\n    dispatcher: Dispatcher, operations: list[Operation], _seen: list = []\n) -> list[Operation]:\n    _seen.extend(operations)",
+       "a default list that collects what every call saw")
+mutant("c04-mutable-default", "C04", "R04.h", RULESF,
+       "def most_work_remaining_rule(dispatcher: Dispatcher) -> Operation:\n    \"\"\"Dispatches the operation which job has the most remaining work.\"\"\"\n    job_remaining_work = [0] * dispatcher.instance.num_jobs",
+       "def most_work_remaining_rule(dispatcher: Dispatcher, _work: dict = {}) -> Operation:\n    \"\"\"Dispatches the operation which job has the most remaining work.\"\"\"\n    _work[dispatcher.instance.name] = 0\n    job_remaining_work = [0] * dispatcher.instance.num_jobs")
+mutant("c20-mutable-default", "C20", "R20.f", GIFF,
+       "    plot_current_time: bool = True,\n    schedule_history: Sequence[ScheduledOperation] | None = None,\n) -> None:\n    \"\"\"Creates frames of the Gantt chart for the schedule being built.",
+       "    plot_current_time: bool = True,\n    schedule_history: Sequence[ScheduledOperation] | None = None,\n    _dirs: list = [],\n) -> None:\n    \"\"\"Creates frames of the Gantt chart for the schedule being built.\n    \"\"\"\n    _dirs.append(frames_dir)\n    \"\"\"")
+mutant("c19-mutable-default", "C19", "R19.j", GGEN,
+       "    def generate(\n        self, num_jobs: int | None = None, num_machines: int | None = None\n    ) -> JobShopInstance:\n        if num_jobs is None:",
+       "    def generate(\n        self, num_jobs: int | None = None, num_machines: int | None = None, _sizes: list = []\n    ) -> JobShopInstance:\n        _sizes += [num_jobs]\n        if num_jobs is None:")
+mutant("c03-mutable-default", "C03", "R03.e", ORT,
+       "    def solve(self, instance: JobShopInstance) -> Schedule:",
+       "    def solve(self, instance: JobShopInstance, _solved: set = set()) -> Schedule:\n        _solved.add(instance.name)")
